@@ -4,7 +4,7 @@ import json, os, sys
 ROOT = os.path.dirname(os.path.abspath(__file__))
 sys.path.insert(0, ROOT)
 from checks_config import PROPS
-from manifest_text import TEXT, NOT_APPLICABLE, ENGINES
+from manifest_text import TEXT, NOT_APPLICABLE, ENGINES, ADDENDA
 
 checks = []
 for pid in sorted(PROPS):
@@ -17,7 +17,7 @@ for pid in sorted(PROPS):
         evidence_file="/verif/evidence/%s.json" % pid,
         replay_cmd_template="./check %s --replay {path}" % pid,
         engine=t.get("engine", ""),
-        level_claimed=dict(category=c["level"], text=t["level_text"], design_ref=t.get("design_ref", "DESIGN.md section 5, " + pid)),
+        level_claimed=dict(category=c["level"], text=t["level_text"] + ADDENDA.get(pid, ""), design_ref=t.get("design_ref", "DESIGN.md section 5, " + pid)),
         level_note=t["level_note"],
         technique=t["technique"],
     ))
